@@ -13,6 +13,13 @@ pub fn dxtn_to_image(
     }
     let raw_image = &image.images[mipmap_level];
     let (width, height) = header.mipmap_size(mipmap_level);
+    // What the stored blocks can describe, for reporting a header they do not match
+    let content_pixels = raw_image.content.len() / image.format.block_size() * 16;
+    let mismatch = || Error::MismatchSizes(mipmap_level, width, height, content_pixels);
+    // The decoder panics on an image without pixels
+    if width == 0 || height == 0 {
+        return Err(mismatch());
+    }
     let size = (width as usize) * (height as usize) * 4;
 
     let decoder: texpresso::Format = image.format.into();
